@@ -14,7 +14,8 @@ Mine(h, c) == HashPL(c) = h["s"].i
 
 WeightSeqs == SeqsUpTo({One, Two, Half, Q(1, 3), Q(2, 7)}, 3) \ {<<>>}
 
-Fns == {"nodes_closed", "nodes_open", "nodes_cheby", "nodes_gauss", "w_closed", "w_open", "w_cheby", "w_gauss"}
+Fns == {"nodes_closed", "nodes_open", "nodes_cheby", "nodes_gauss", "w_closed", "w_open", "w_cheby", "w_gauss",
+        "interp_closed", "interp_closed_float", "interp_open", "interp_open_float"}
 
 (* polylines: simple interior knots, integer vertices *)
 PolyU(n) == IntegerKV(1, n)                     \* n vertices, knots 0..n-1
@@ -56,6 +57,12 @@ Arcs == {PC(B2, <<0, 2, 4>>, <<0, 3, 0>>, <<>>), PC(B2, <<1, 1, 0>>, <<0, 1, 1>>
 FarArcs == {PC(B2, <<6, 8, 10>>, <<5, 9, 5>>, <<>>), PC(B3, <<-9, -8, -7, -6>>, <<1, 5, -1, 2>>, <<>>),
             PC(B2, <<0, 2, 4>>, <<-9, -5, -9>>, <<1, 3, 1>>)}
 OnGrid(c) == ParamGrid(c.U, 2)
+(* polylines 64 times larger on the same unit knot spans: a parameter step of 2^-21 (below the 1e-6 of the Newton    *)
+(* iteration) is a distance of 3e-5 and more (far above the 1e-6 of the result)                                      *)
+BigLines == {[U |-> x.U, X |-> [i \in DOMAIN x.X |-> Mul(R(64), x.X[i])], Y |-> [i \in DOMAIN x.Y |-> Mul(R(64), x.Y[i])], W |-> <<>>]
+               : x \in {y \in Zigzags \cup Lines : Len(y.X) >= 3}}
+BesideKnots(c) == LET ks == Knots(c.U) IN
+  {Sub(ks[i], Q(1, 2097152)) : i \in 2..(Len(ks) - 1)} \cup {Add(ks[i], Q(1, 2097152)) : i \in 2..(Len(ks) - 1)}
 
 MCArgs(name, h, dep) ==
   IF name \notin Acts THEN {} ELSE
@@ -66,9 +73,10 @@ MCArgs(name, h, dep) ==
                    k \in {"integer", "uniform"}, p \in 0..MaxP, e \in 0..MaxExtra}
          \cup {[obj |-> "a", kind |-> "weight", p |-> p, n |-> 0, w |-> w] : p \in 0..MaxP, w \in WeightSeqs}
     [] name = "MemoRequest" ->
-         {[fn |-> f, n |-> n] : f \in Fns, n \in 1..MemoN} \ {[fn |-> f, n |-> 1] : f \in {"nodes_closed", "w_closed"}}
+         {[fn |-> f, n |-> n] : f \in Fns, n \in 1..MemoN} \ {[fn |-> f, n |-> 1] : f \in {"nodes_closed", "w_closed", "interp_closed", "interp_closed_float"}}
     [] name = "GeoProjectOn" ->
          UNION {{[curve |-> c, u0 |-> u] : u \in OnGrid(c)} : c \in {x \in Arcs : Mine(h, x)}}
+         \cup UNION {{[curve |-> c, u0 |-> u] : u \in BesideKnots(c)} : c \in {x \in BigLines : Mine(h, x)}}
     [] name = "GeoIntersectCurved" ->
          {[A |-> A, B |-> B] : A \in {x \in Arcs \cup FarArcs : Mine(h, x)}, B \in Arcs \cup FarArcs}
     [] name = "GeoLength" ->
@@ -92,6 +100,12 @@ MCArgs(name, h, dep) ==
          \cup {[A |-> A, B |-> B, elev |-> 0] : A \in {x \in GridSegs : Mine(h, x)}, B \in GridSegs}
          \cup {[A |-> A, B |-> B, elev |-> 0] : A \in {x \in Zigzags : Mine(h, x)}, B \in GridSegs \cup Zigzags}
          \cup {[A |-> A, B |-> B, elev |-> 0] : A \in {x \in GridSegs : Mine(h, x)}, B \in Bowties}
+         \* the same geometry traversed 32768 times faster by one operand (its knots divided by 2^15): the two
+         \* derivatives differ by 4-5 orders of magnitude, the crossings are as transversal as before
+         \cup {[A |-> A, B |-> [B EXCEPT !.U = ScaleKV(B.U, Q(1, 32768)).kv], elev |-> 0] :
+                  A \in {x \in Zigzags : Mine(h, x)}, B \in {y \in GridSegs : y.X[1] = R(-3)}}
+         \cup {[A |-> [A EXCEPT !.U = ScaleKV(A.U, Q(1, 32768)).kv], B |-> B, elev |-> 0] :
+                  A \in {x \in Zigzags : Mine(h, x)}, B \in {y \in GridSegs : y.X[1] = R(-3)}}
     [] OTHER -> {}
 
 (* C20 generator sanity: every generated pair is in the guaranteed class (no end-point touches,   *)
